@@ -45,14 +45,14 @@ WORKERS = {"quick": 1, "thorough": 14}
 
 def gen_cases(ctx):
     rng = ctx.rng
-    for i in range(ctx.scale(5000, 120000)):
+    for i in range(ctx.scale(5000, 720000)):
         inst = gen.gen_instance(rng, None, max_jobs=rng.choice([2, 3, 4, 5]), max_machines=rng.choice([2, 3, 4, 5]))
         yield {"kind": "builders", "instance": inst, "seed": rng.randrange(2**31)}
     for i, n in enumerate(["ft06", "la01"] if ctx.tier == "quick" else
                           ["ft06", "ft10", "la01", "la06", "la16", "orb01", "abz5", "swv01"]):
         if i % ctx.nshards == ctx.shard:
             yield {"kind": "benchmark", "name": n, "seed": i, "instance": {"cls": "benchmark"}}
-    for i in range(ctx.scale(2500, 60000)):
+    for i in range(ctx.scale(2500, 360000)):
         inst = gen.gen_instance(rng, rng.choice(gen.POSITIVE_CLASSES), max_jobs=rng.choice([2, 3, 4, 5]),
                                 max_machines=rng.choice([2, 3, 4]))
         yield {"kind": "solved", "instance": inst, "seed": rng.randrange(2**31),
